@@ -8,6 +8,7 @@ import (
 	"go/ast"
 	"go/types"
 	"sort"
+	"strings"
 )
 
 var wallClockFuncs = map[string]bool{
@@ -78,6 +79,8 @@ func CheckRules(w *World, pi *PkgInfo) []*Obligation {
 							fo := sel.Obj().(*types.Func)
 							if cf := w.FuncOf(fo); cf != nil {
 								calls[cf.Key] = append(calls[cf.Key], hit{k, x.pos(s.Pos())})
+							} else if !isInterfaceMethod(fo.Origin()) {
+								calls[fo.Origin().FullName()] = append(calls[fo.Origin().FullName()], hit{k, x.pos(s.Pos())})
 							}
 							for _, n := range ifaceMethodNames(fo.Origin(), Value{T: sel.Recv()}) {
 								calls[n] = append(calls[n], hit{k, x.pos(s.Pos())})
@@ -134,6 +137,29 @@ func CheckRules(w *World, pi *PkgInfo) []*Obligation {
 				mk(r, "callers:"+r.Subject, true, fmt.Sprintf("contracts:%d", r.Line), fmt.Sprintf("%s is called only from %v (%d call sites)", r.Subject, r.Allowed, len(calls[r.Subject])))
 			}
 		case "forbid":
+			if r.Subject == "timeapi" {
+				// methods of time.Time other than the listed ones must not be called at all
+				bad := false
+				var names []string
+				for n := range calls {
+					if strings.HasPrefix(n, "(time.Time).") {
+						names = append(names, n)
+					}
+				}
+				sort.Strings(names)
+				for _, n := range names {
+					if allowed(r, n) {
+						continue
+					}
+					for _, h := range calls[n] {
+						bad = true
+						mk(r, fmt.Sprintf("timeapi:%s@%s", n, h.fn), false, h.pos, fmt.Sprintf("only %v of time.Time may be used (time values are only compared by difference or turned into a payload timestamp)", r.Allowed))
+					}
+				}
+				if !bad {
+					mk(r, "timeapi", true, fmt.Sprintf("contracts:%d", r.Line), fmt.Sprintf("the only time.Time methods used in the package are among %v", r.Allowed))
+				}
+			}
 			if r.Subject == "wallclock" {
 				bad := false
 				var names []string
